@@ -167,6 +167,16 @@ fn probe_one(m: &HistModel, st: &St, i: usize, proto: u16, id: u16, other_id: u1
             out.push(issue(format!("{}/cache-changed-by-unknown-template-data/{}", pn, pos), format!("instance {}: probe {}", i, hex(&bytes))));
         }
     }
+    // the parser that LIVED the history (not one rebuilt from the cache snapshot): state kept in the parser object
+    // outside the two maps - a displaced definition, a "current template" - shows only here
+    {
+        let mut p = m.replay(i, &st.hist);
+        let d = mk(&[("D", id)]);
+        let res = p.parse_bytes(&d);
+        if has_records_for(&res, proto, id) {
+            out.push(issue(format!("{}/records-for-unknown-template/on-the-parser-that-lived-the-history", pn), format!("instance {} after the history of this state reports decoded records for {} id {} which it never learned; probe {}", i, pn, id, hex(&d))));
+        }
+    }
     // another parser instance that DOES hold the id decodes the same data first, on this very thread; then this
     // instance is offered it (state kept per thread or per process instead of per parser shows here, whatever thread
     // the search happens to evaluate the state on)
